@@ -1,19 +1,26 @@
 /-
   jrpc_model — line-protocol driver of the executable model.
-  One operation per input line, exactly one output line per operation.
-  Stateless verbs are dispatched family by family; stateful families keep their state in `St`.
+  One operation per input line, exactly one output line per operation (also for `case …` lines).
+  Stateless verbs are dispatched family by family; stateful families keep their state in `St`
+  (one field per family) and reset it on their own `case` header.
 -/
 import JrpcVerif.Driver.TextFamily
 open Jrpc Jrpc.Driver
 
 structure St where
   dummy : Nat := 0
+  -- one field per stateful family, e.g.  reg : RegistrySt := {}
 
 def step (st : St) (line : String) : St × String :=
   let ws := (line.trimAscii.toString.splitOn " ").filter (· ≠ "")
   match textVerb ws with
   | some out => (st, out)
-  | none => (st, "bad-op")
+  | none =>
+  -- stateful families: add one arm each, e.g.
+  --   match registryVerb st.reg ws with
+  --   | some (s', out) => ({ st with reg := s' }, out)
+  --   | none =>
+  (st, "bad-op")
 
 partial def loop (h : IO.FS.Stream) (out : IO.FS.Stream) (st : St) : IO Unit := do
   let line ← h.getLine
